@@ -494,9 +494,9 @@ func c09Observers() []model.ObsSpec {
 
 func init() {
 	Registry["C09"] = func(t Tier) *Check {
-		d := 4
+		d := 3
 		if t == Thorough {
-			d = 5
+			d = 4
 		}
 		obs := c09Observers()
 		var reg []model.Op
@@ -559,7 +559,7 @@ func init() {
 				Oracle:   drv.Oracle{World: true, Events: true, InCb: true, Lock: true},
 				Preludes: pre,
 				Alphabet: concat(relAlphabet(relOpts{path: path, maxAlive: 6, batch: true, two: path == model.PathMapN, nTargets: 2}), extra(path)),
-				Depth:    map[bool]int{true: d, false: d - 1}[path == model.PathMapN || t == Thorough],
+				Depth:    d,
 			})
 		}
 		// only relation observers registered (no entity/component observers): other lock decisions
@@ -579,7 +579,7 @@ func init() {
 				Oracle:   drv.Oracle{World: true, Events: true, InCb: true, Lock: true},
 				Preludes: pre,
 				Alphabet: concat(relAlphabet(relOpts{path: model.PathMapN, maxAlive: 6, batch: true, two: true, nTargets: 2}), extra(model.PathMapN)),
-				Depth:    d - 1,
+				Depth:    d,
 			})
 		}
 		return &Check{ID: "C09", Scenarios: scs,
